@@ -152,7 +152,7 @@ def main():
         k = 0
         for scheme, short in (("L/Y/YX", "LsYsYX"), ("LXY", "LXY")):
             for fmt in ("png", "fits", "npy"):
-                for (w, hh) in ([(200, 100), (513, 300)] if not h.deep else [(200, 100), (256, 256), (513, 300), (700, 1025)]):
+                for (w, hh) in ([(200, 100), (300, 513)] if not h.deep else [(200, 100), (256, 256), (513, 300), (300, 513), (130, 260), (700, 1025)]):   # wide, square and tall (the two axes need different powers of two)
                     k += 1
                     d = os.path.join(root, f"study{k}")
                     pio = PyramidIO(d, scheme=scheme, default_format=fmt)
@@ -204,7 +204,7 @@ def main():
                 check_dir(h, tag, d, short, lines, py, expect_levels=depth, full=True)
                 shutil.rmtree(d, ignore_errors=True)
         # ---- tile_fits: TAN and TOAST, with reuse histories
-        sizes = [(600, 600), (300, 200)] + ([(1100, 700)] if h.deep else [])
+        sizes = [(600, 600), (200, 300)] + ([(1100, 700), (300, 200)] if h.deep else [])
         for (w, hh) in sizes:
             for method, mname in ((TilingMethod.TAN, "tan"), (TilingMethod.TOAST, "toast")):
                 k += 1
